@@ -180,3 +180,25 @@ def sql_literal_cases():
     openers = [("'", 39), ('"', 34), ("`", 96), ("n'", 39), ("N'", 39), ("e'", 39), ("E'", 39), ("u&'", 39), ("U&'", 39),
                ("@'", 39), ('@"', 34), ("@`", 96), ("@@'", 39), ("1 '", 39), ("a=`", 96)]
     return openers
+
+
+def all_bytes_in_context(frames):
+    """every byte value 0..255 in each (prefix, suffix) frame"""
+    for pre, suf in frames:
+        for c in range(256):
+            yield b(pre) + [c] + b(suf)
+
+
+SQL_BYTE_FRAMES = [("", ""), ("a", ""), ("", "a"), ("a", "1"), ("1", ""), (" ", " "), ("'", ""), ("", "'"), ("1 ", " 1"), ("@", ""), ("a.", ""),
+                   ("select ", " from x"), ("1 or ", "=1"), ("q'", "a"), ("$", "$"), ("0x", ""), ("1e", ""), ("\\", "")]
+HTML_BYTE_FRAMES = [("", ""), ("<", ""), ("<a", ">"), ("<a ", "=1>"), ("<a b", "c=1>"), ("<a b=", ">"), ("</", ">"), ("<!", ">"), ("<!--", "-->"),
+                    ("<a b='", "'>"), ("x", " onclick=1"), ("<a href=", "javascript:1>"), ("&#", ";")]
+
+
+def literal_bodies(maxlen):
+    """SQL literal openers x all bodies over {closer, quote, backslash, filler, opener byte}"""
+    fam = [("q'[", "]'a["), ("q'x", "x'a"), ("q'(", ")'a("), ("nq'!", "!'a"), ("$a$", "$a x"), ("$$", "$a"), ("'", "'\\a"), ('"', '"\\a'),
+           ("`", "`\\a"), ("e'", "'\\a"), ("u&'", "'\\a"), ("@'", "'\\a")]
+    for opener, alpha in fam:
+        for body in all_strings(b(alpha), maxlen):
+            yield b(opener) + body
